@@ -32,7 +32,7 @@ def differential(chk, scen, results):
     per = {}
     for l in out:
         w = l.split(' ', 2)
-        if len(w) >= 2 and w[0] in ('out', 'okq', 'BAD'):
+        if len(w) >= 2 and w[0] in ('out', 'wrp', 'okq', 'BAD'):
             per.setdefault(w[1], []).append(l)
     nval = 0
     for k, (case, res) in enumerate(results):
@@ -98,7 +98,7 @@ def _round(chk, scen, cases):
 def run(chk):
     chk.audit(PROPS)
     scen = _scen()
-    n = 1200 if chk.tier == 'quick' else 60000
+    n = 1500 if chk.tier == 'quick' else 250000
     kinds = ['', '', '', 'leaf', 'ens', 'ens', 'boundary']
     cases = [scen.gen_case(chk.rng, chk.tier, chk.rng.choice(kinds)) for _ in range(n)]
     results = _round(chk, scen, cases)
